@@ -133,6 +133,9 @@ int main(void)
 	ND_BYTES(drbg_out, 48);
 	kx_ok = ND_U8() & 1; kx_outlen = 48;
 	sctx.client_max_version = ND_U16();
+	/* the other version registers are explicit inputs too (what a wrong implementation might read instead) */
+	sctx.eng.session.version = ND_U16(); sctx.eng.version_in = ND_U16(); sctx.eng.version_out = ND_U16();
+	sctx.eng.version_min = ND_U16(); sctx.eng.version_max = ND_U16();
 	int prf = ND_U8();
 	do_rsa_decrypt(&sctx, prf, epms, 64);
 	CHECK(kx_calls == 1 && cm_calls == 1 && cm_len == 48 && cm_prf == prf, "one decryption, one master-secret computation over 48 bytes with the suite's PRF");
